@@ -81,11 +81,35 @@ PROPS["C08"] = dict(
          "silently dropped' and is trusted; regexp matching on symbolic bytes is the engine's backtracking matcher over regexp/syntax programs.",
 )
 
+PROPS["C09"] = dict(
+    MIGRATE,
+    runs={
+        "quick": [dict(harness="VerifHarness_C09_quick", reach=["clean-run", "stmt-fault", "write-fault", "two-write-faults"])],
+        "thorough": [dict(harness="VerifHarness_C09_thorough", reach=["clean-run", "stmt-fault", "write-fault", "two-write-faults"])],
+    },
+    bounds={
+        "quick": "1..2 files x 1..2 statements; two faulty ExecuteN runs then a clean one; in each faulty run the index of the failing store "
+                 "operation (statement execution or revision write, or none) is a symbolic integer",
+        "thorough": "1..3 files x 1..3 statements; two faulty runs (symbolic failing operation index each) then a clean run; unsat answers cross-checked",
+    },
+    assumptions=[
+        "a failing ExecContext has no effect; a failing WriteRevision stores nothing; the revision table stores copies",
+        "real migrate.MemDir with a sum file written by WriteSumFile; SHA-256 = injective opaque token",
+        "statement texts are concrete (the scanner is C08); the fault position is the symbolic input",
+    ],
+    outside="more than two faults; partially applied statements inside the database; logger side effects; shapes beyond the bound",
+    claim="For every directory shape and every pair of fault positions within the bounds (fault position = solver variable), the real "
+          "Executor.ExecuteN/Pending/Execute never record more than was executed, run statements in version/file order without skipping, repeat a "
+          "statement only when its own bookkeeping write failed (once per such failure), execute every statement exactly once when only statements "
+          "fail, and the final clean run completes the directory.",
+    note="Bounded. Trusted: engine semantics, z3, the recording driver / copying revision table models (harness/migrate/zz_verif_model.go).",
+)
+
 NOT_APPLICABLE = {
     "C01": "needs a real SQLite engine executing the planned SQL and pragma-based inspection; neither cgo code nor SQLite's DDL "
            "semantics can be encoded by an SSA-level symbolic executor, and a hand-written catalogue model would verify the model, not Atlas "
            "(the reachable code-level pieces are claimed under C02, C03, C05)",
 }
-for _p in ["C02","C03","C04","C05","C06","C07","C09","C10","C11","C13","C14","C15","C16","C17","C18","C19","C20"]:
+for _p in ["C02","C03","C04","C05","C06","C07","C10","C11","C13","C14","C15","C16","C17","C18","C19","C20"]:
     NOT_APPLICABLE.setdefault(_p, "check not built yet in this session (planned, see DESIGN.md section 5)")
 
